@@ -59,7 +59,12 @@ pub trait RollingFinal<T>: Vec1View<T> {
             window,
             |arr| {
                 let acc_func = |acc: f64, (v, c): (T, f64)| acc + v.cast() * c;
-                arr.titer().zip(coef.titer()).fold(0., acc_func).cast()
+                // while the window is still filling the slice is shorter than `coef`:
+                // drop the weights of the lags that do not exist yet
+                arr.titer()
+                    .zip(coef.titer().skip(coef.len() - arr.len()))
+                    .fold(0., acc_func)
+                    .cast()
             },
             out,
         )
